@@ -45,6 +45,10 @@ namespace zoo {
       e.generative = generative;
       const Iface* p = &i;
       e.observe = [p](Ctx& c) { return describe_as<Iface>(c, *p); };
+      if constexpr (std::is_base_of_v<ipr::Classic, Iface> and requires(Impl& m, const ipr::Decl* d) { m.op_impl = d; }) {
+         Impl* mp = const_cast<Impl*>(&n);
+         e.set_implementation = [mp](const ipr::Decl* d) { mp->op_impl = d; };
+      }
       namer.names.insert({ static_cast<const void*>(e.node), "k" + std::to_string(entries.size()) + "." + e.iface });
       entries.push_back(std::move(e));
       if (rep) rep->count("transitions");
